@@ -445,3 +445,36 @@ impl<'a> View<'a> {
         v
     }
 }
+
+impl<'a> View<'a> {
+    /// Is the actor demonstrably busy at `seq`: inside a callback, or with an accepted message /
+    /// submitted tick it has not taken out yet?  (Used by liveness-style rules so that an actor
+    /// that is still legitimately draining is not mistaken for one that is kept alive.)
+    pub fn busy_at(&self, a: &ActorRun, seq: u64) -> bool {
+        if self.cbs_of(a).any(|c| c.enter < seq && c.exit.is_none_or(|x| x > seq)) {
+            return true;
+        }
+        let Some(aidx) = a.aidx else { return false };
+        for o in self.ops.iter().filter(|o| o.target == Some(aidx) && !o.skipped()) {
+            if let (Op::Send { id, .. } | Op::ForceSend { id, .. } | Op::Call { id, .. }, true) = (o.inner, o.begin < seq) {
+                let entered = self.cbs_of(a).any(|c| c.id == *id && c.enter < seq);
+                if !entered && !o.err() && !o.abandoned() {
+                    return true;
+                }
+            }
+        }
+        let mut submitted = 0usize;
+        for r in &self.out.log {
+            if r.st.seq >= seq {
+                break;
+            }
+            if let Ev::TimerSubmit { aidx: x, .. } = &r.ev {
+                if *x == aidx {
+                    submitted += 1;
+                }
+            }
+        }
+        let ticks = self.cbs_of(a).filter(|c| c.cb == Cb::Tick && c.enter < seq).count();
+        submitted > ticks
+    }
+}
